@@ -10,9 +10,10 @@ import (
 	"fmt"
 	"math/big"
 	"sort"
+	"strings"
 
-	cp "golang.org/x/crypto/chacha20poly1305"
 	"golang.org/x/crypto/chacha20"
+	cp "golang.org/x/crypto/chacha20poly1305"
 	"verifharness/hx"
 )
 
@@ -25,7 +26,7 @@ func init() {
 
 var adLens = []int{0, 0, 1, 7, 8, 12, 13, 13, 14, 15, 16, 17, 20, 31, 32, 33, 40}
 
-func lens(g *hx.Gen) []int {
+func lens(g *bufGen) []int {
 	set := map[int]bool{}
 	top := 1100
 	if g.Thorough() {
@@ -67,7 +68,7 @@ func lens(g *hx.Gen) []int {
 	return out
 }
 
-func mkDst(r *hx.Rand, g *hx.Gen, need int) (dst []byte, spare int) {
+func mkDst(r *hx.Rand, g *bufGen, need int) (dst []byte, spare int) {
 	switch r.Intn(4) {
 	case 0:
 		return nil, 0
@@ -83,7 +84,7 @@ func mkDst(r *hx.Rand, g *hx.Gen, need int) (dst []byte, spare int) {
 	}
 }
 
-func emit3(g *hx.Gen, format string, a ...any) {
+func emit3(g *bufGen, format string, a ...any) {
 	for _, p := range []string{"asm", "gen", "off"} {
 		g.Emit("%s path=%s", fmt.Sprintf(format, a...), p)
 	}
@@ -179,7 +180,7 @@ func solvedCase(r *hx.Rand, x int, L int) (key, nonce, ad, pt []byte, k int64, o
 	for _, kk := range ks {
 		k = int64(kk - 2)
 		t := new(big.Int).Mul(big.NewInt(k), inv) // k·r⁻¹
-		t.Sub(t, lenv).Mul(t, inv)                 // (k·r⁻¹ − lenblock)·r⁻¹  = h + m + 2^128
+		t.Sub(t, lenv).Mul(t, inv)                // (k·r⁻¹ − lenblock)·r⁻¹  = h + m + 2^128
 		t.Sub(t, h).Sub(t, two128).Mod(t, pPrime)
 		if t.Cmp(two128) < 0 {
 			m := intLE(t, 16)
@@ -192,7 +193,49 @@ func solvedCase(r *hx.Rand, x int, L int) (key, nonce, ad, pt []byte, k int64, o
 	return
 }
 
-func gen(g *hx.Gen) {
+// special-cased constants of the assembly (AD fast path: exactly 13 bytes; plaintext thresholds). A comparison
+// done on a truncated register would confuse c with c + k·2^8 or c + k·2^16, so those aliases are generated too.
+var asmConsts = []int{13, 16, 32, 128, 192, 256, 320, 384, 512}
+
+type bufGen struct {
+	*hx.Gen
+	lines []string
+}
+
+func (b *bufGen) Emit(format string, a ...any) { b.lines = append(b.lines, fmt.Sprintf(format, a...)) }
+
+// flush emits the collected lines; about a quarter of them grouped into sessions of 2..6 consecutive calls that
+// share key/nonce/ad/plaintext/dst buffers and the AEAD object (consecutive lines are the same case on the three
+// paths followed by the next case: same contents again, then changed contents in place)
+func (b *bufGen) flush() {
+	r := b.R
+	for i := 0; i < len(b.lines); {
+		if r.Chance(1, 10) && i+2 <= len(b.lines) {
+			k := min(r.Range(2, 6), len(b.lines)-i)
+			sub := append([]string(nil), b.lines[i:i+k]...)
+			size := 0
+			for j := range sub {
+				size += len(sub[j])
+				if r.Chance(1, 6) {
+					sub[j] += " fresh=1"
+				}
+			}
+			if size < 200000 {
+				b.Gen.Emit("%s", sessLine(sub))
+				b.Stat("session")
+				b.StatN("session.calls", k)
+				i += k
+				continue
+			}
+		}
+		b.Gen.Emit("%s", b.lines[i])
+		i++
+	}
+}
+
+func gen(gg *hx.Gen) {
+	g := &bufGen{Gen: gg}
+	defer g.flush()
 	r := g.R
 	nsolved := g.Count(150, 2000)
 	for i := 0; i < nsolved; i++ {
@@ -262,8 +305,46 @@ func gen(g *hx.Gen) {
 			one(L, ad, r.Intn(2))
 		}
 	}
-	for _, ad := range []int{63, 64, 65, 255, 256, 257, 600} {
+	// EVERY additional-data length 0..600 at least once per run (the assembly hashes AD in a shared routine with
+	// a 13-byte fast path, 16-byte blocks and a byte-wise tail), two plaintext lengths each
+	for ad := 41; ad <= 600; ad++ {
+		one(hx.Pick(r, []int{0, 1, 16, 64, 129, 300, 513}), ad, r.Intn(2))
 		one(r.Intn(700), ad, r.Intn(2))
+		g.Stat("ad.every-0..600")
+	}
+	// random AD lengths up to ~2000 and the residue classes of the special constant 13
+	nad := g.Count(120, 3000)
+	for i := 0; i < nad; i++ {
+		one(r.Intn(400), r.Intn(2049), r.Intn(2))
+		g.Stat("ad.random<=2048")
+	}
+	for _, m := range []int{16, 64, 256} {
+		for k := 1; k <= 8; k++ {
+			ad := 13 + m*k
+			if m == 256 || ad > 600 {
+				one(r.Intn(200), ad, r.Intn(2))
+				g.Stat("ad.13-mod-16/64/256")
+			}
+		}
+	}
+	// aliases c + k·2^8 (AD) and c + k·2^16 (AD and plaintext) of the assembly's special constants
+	for _, c := range asmConsts {
+		for k := 1; k <= 3; k++ {
+			one(r.Intn(100), c+256*k, r.Intn(2))
+			g.Stat("alias.ad+k*256")
+		}
+	}
+	nal := g.Count(3, 40)
+	for i := 0; i < nal; i++ {
+		c := hx.Pick(r, asmConsts)
+		k := r.Range(1, 2)
+		if r.Bool() || c == 13 {
+			one(r.Intn(100), c+65536*k, r.Intn(2))
+			g.Stat("alias.ad+k*65536")
+		} else {
+			one(c+65536*k, hx.Pick(r, adLens), r.Intn(2))
+			g.Stat("alias.pt+k*65536")
+		}
 	}
 	extra := g.Count(300, 2500)
 	for i := 0; i < extra; i++ {
@@ -292,21 +373,18 @@ func gen(g *hx.Gen) {
 	}
 }
 
-func withCap(dst []byte, spare int) []byte {
-	b := make([]byte, len(dst), len(dst)+spare)
-	copy(b, dst)
-	return b
+type sess struct {
+	*arena
+	aead    cipher.AEAD
+	aeadKey string
 }
 
-func exec(line string) string {
-	o := hx.Parse(line)
-	x := o.Int("x")
-	key, nonce, ad := o.Hex("key"), o.Hex("nonce"), o.Hex("ad")
-	dst := withCap(o.Hex("dst"), o.Int("cap"))
-	path := o.Str("path")
-	cp.VerifSetAVX2(origAVX2 && path != "off")
-	defer cp.VerifSetAVX2(origAVX2)
-
+// aeadFor reuses the AEAD object while the key bytes (and variant) stay the same
+func (s *sess) aeadFor(x int, key []byte) (cipher.AEAD, error) {
+	id := fmt.Sprintf("%d:%x", x, key)
+	if s.aead != nil && s.aeadKey == id {
+		return s.aead, nil
+	}
 	var a cipher.AEAD
 	var err error
 	if x == 1 {
@@ -314,6 +392,40 @@ func exec(line string) string {
 	} else {
 		a, err = cp.New(key)
 	}
+	if err == nil {
+		s.aead, s.aeadKey = a, id
+	}
+	return a, err
+}
+
+func exec(line string) string {
+	o := hx.Parse(line)
+	if o.Cmd == "sess" {
+		ss := &sess{arena: newArena()}
+		var outs []string
+		for _, sub := range strings.Split(o.Str("ops"), "|") {
+			so := hx.Parse(strings.ReplaceAll(sub, ";", " "))
+			a := ss
+			if so.Str("fresh") == "1" {
+				a = &sess{arena: newArena()}
+			}
+			outs = append(outs, hx.Catch(func() string { return execOne(so, a) }))
+		}
+		return strings.Join(outs, " ## ")
+	}
+	return execOne(o, &sess{arena: newArena()})
+}
+
+func execOne(o hx.Op, ss *sess) string {
+	ss.begin()
+	x := o.Int("x")
+	key, nonce, ad := ss.In("key", o.Hex("key")), ss.In("nonce", o.Hex("nonce")), ss.In("ad", o.Hex("ad"))
+	dst := ss.Out("dst", o.Hex("dst"), o.Int("cap"), 0xaa)
+	path := o.Str("path")
+	cp.VerifSetAVX2(origAVX2 && path != "off")
+	defer cp.VerifSetAVX2(origAVX2)
+
+	a, err := ss.aeadFor(x, key)
 	if err != nil {
 		return "err-key"
 	}
@@ -321,30 +433,30 @@ func exec(line string) string {
 	nonceOK := len(nonce) == a.NonceSize()
 	gkey, gnonce := key, nonce
 	if x == 1 && nonceOK && path == "gen" {
-		gkey, _ = chacha20.HChaCha20(key, nonce[:16]) // stdlib-free sub-key derivation is part of C03; the hook takes the derived key
+		gkey, _ = chacha20.HChaCha20(key, nonce[:16]) // the hook takes the derived key
 		gnonce = make([]byte, 12)
 		copy(gnonce[4:], nonce[16:])
 	}
 	switch o.Cmd {
 	case "seal":
-		pt := o.Hex("pt")
+		pt := ss.In("pt", o.Hex("pt"))
 		var ret []byte
 		if path == "gen" && nonceOK {
 			ret = cp.VerifSealGeneric(gkey, dst, gnonce, pt, ad)
 		} else {
 			ret = a.Seal(dst, nonce, pt, ad)
 		}
-		return hx.Hex(ret)
+		return hx.Hex(ret) + ss.mutated()
 	case "kat":
-		pt, out := o.Hex("pt"), o.Hex("out")
+		pt, out := ss.In("pt", o.Hex("pt")), ss.In("out", o.Hex("out"))
 		sealed := a.Seal(dst, nonce, pt, ad)
 		opened, err := a.Open(dst, nonce, out, ad)
-		if err == nil && hx.Hex(sealed) == hx.Hex(append(dst, out...)) && hx.Hex(opened) == hx.Hex(append(dst, pt...)) {
-			return "kat-ok"
+		if err == nil && hx.Hex(sealed) == hx.Hex(append(o.Hex("dst"), out...)) && hx.Hex(opened) == hx.Hex(append(o.Hex("dst"), pt...)) {
+			return "kat-ok" + ss.mutated()
 		}
 		return "kat-mismatch"
 	case "open":
-		ct := o.Hex("ct")
+		ct := ss.In("ct", o.Hex("ct"))
 		var ret []byte
 		if path == "gen" && nonceOK && len(ct) >= 16 {
 			ret, err = cp.VerifOpenGeneric(gkey, dst, gnonce, ct, ad)
@@ -355,9 +467,9 @@ func exec(line string) string {
 			if ret != nil {
 				return "err-with-data"
 			}
-			return "err"
+			return "err" + ss.mutated()
 		}
-		return "ok " + hx.Hex(ret)
+		return "ok " + hx.Hex(ret) + ss.mutated()
 	}
 	return "bad-op"
 }
